@@ -5,7 +5,7 @@ SPEC = {
     "harness": "hx-chain",
     "harness_args": ["C08"],
     "translators": [],
-    "level_text": "Proof (Coq): in the fork-choice/delivery model of C01 extended with crashes (the orphan pool and every queued block are lost, the records committed by verify_block persist), after any number of crashes at any points, once every block has been processed before the last crash or is delivered again after it (by InitLoadUnverified or by peers), the node has the total difficulty of any run that never crashed and the same tip unless two fully valid chains tie (c08_converges); the state found after a restart is always a state of a crash-free run over a parent-first selection of the delivered blocks (c08_restart_state_consistent), to which C02's replay theorem applies. Tie / fault enumeration on the implementation: a child process imports generated histories (transactions, competing branches; sequentially or asynchronously) over an on-disk DB and is aborted at every write to the database (hook in ckb-db: before and after every transaction commit and write batch); the parent re-opens the DB, waits for the start-up recovery, checks the C02 replay consistency of the stored columns and that stored-but-unverified blocks were picked up, redelivers everything and compares tip, total difficulty and columns with the run that never crashed; the model recomputes the observed difficulties (vm_compute). The start-up scan of InitLoadUnverified is modelled separately (Chain/Recover.v): a stored-but-unverified block is submitted again iff every height above the tip up to its own holds some stored-but-unverified block (c08_scan_reaches, c08_scan_reaches_up_to_tip, c08_scan_only_unverified); 'every stored-but-unverified block is picked up' is false as stated (c08_scan_gap_refuted, known finding C08-recovery-stops-at-first-empty-height-above-tip, reproduced on the real node by a directed history). For every crash the store is inspected before the chain services start (which blocks lack a record, by height in hash order) and the model predicts which of them have a record after the recovery. After every restart the snapshot's proposal view (raw short ids) is compared with the proposal window over the stored main chain, and the stored current-epoch record and the snapshot's epoch with the epoch of the tip block; both again after the redelivery.",
+    "level_text": "Proof (Coq): in the fork-choice/delivery model of C01 extended with crashes (the orphan pool and every queued block are lost, the records committed by verify_block persist), after any number of crashes at any points, once every block has been processed before the last crash or is delivered again after it (by InitLoadUnverified or by peers), the node has the total difficulty of any run that never crashed and the same tip unless two fully valid chains tie (c08_converges); the state found after a restart is always a state of a crash-free run over a parent-first selection of the delivered blocks (c08_restart_state_consistent), to which C02's replay theorem applies. Tie / fault enumeration on the implementation: a child process imports generated histories (transactions, competing branches; sequentially or asynchronously) over an on-disk DB and is aborted at every write to the database (hook in ckb-db: before and after every transaction commit and write batch); the parent re-opens the DB, waits for the start-up recovery, checks the C02 replay consistency of the stored columns and that stored-but-unverified blocks were picked up, redelivers everything and compares tip, total difficulty and columns with the run that never crashed; the model recomputes the observed difficulties (vm_compute). The start-up scan of InitLoadUnverified is modelled separately (Chain/Recover.v): a stored-but-unverified block is submitted again iff every height above the tip up to its own holds some stored-but-unverified block (c08_scan_reaches, c08_scan_reaches_up_to_tip, c08_scan_only_unverified); 'every stored-but-unverified block is picked up' is false as stated (c08_scan_gap_refuted, known finding C08-recovery-stops-at-first-empty-height-above-tip, reproduced on the real node by a directed history). For every crash the store is inspected before the chain services start (which blocks lack a record, by height in hash order) and the model predicts which of them have a record after the recovery. After every restart the snapshot's proposal view (raw short ids) is compared with the proposal window over the stored main chain, and the stored current-epoch record and the snapshot's epoch with the epoch of the tip block; both again after the redelivery. A directed state per history: the last 2..4 main-chain blocks are stored exactly as ChainService::insert_block stores them (no verification record: the insert thread was ahead of the verify thread), then the node is re-opened; every such block must be picked up by the start-up recovery (the recovery model's picked set is compared as for crash points).",
     "level_note": "Trusted: Coq kernel; hand-written models Chain/ForkChoice.v + Chain/Crash.v (correspondence-checked); hook 8fd9265 (ckb-db verif-hooks crash points). A crash is a process abort: atomicity and durability of a RocksDB commit across power loss (WAL, fsync) are assumed, not tested; crash points are the database writes, not arbitrary instructions (between two writes no persistent state changes).",
     "trusted_base": COMMON_TB + [
         "hand-written model coq/Chain/Crash.v over coq/Chain/ForkChoice.v",
